@@ -367,6 +367,11 @@ func (obj *SparseConstInt64VectorJointIterator) Ok() bool {
          !(obj.s2.GetInt64() == int64(0))
 }
 func (obj *SparseConstInt64VectorJointIterator) Next() {
+  // skip positions where both operands hold a zero
+  for obj.next() && !obj.Ok() {
+  }
+}
+func (obj *SparseConstInt64VectorJointIterator) next() bool {
   ok1 := obj.it1.Ok()
   ok2 := obj.it2.Ok()
   obj.s1 = ConstInt64(0)
@@ -393,6 +398,7 @@ func (obj *SparseConstInt64VectorJointIterator) Next() {
   } else {
     obj.s2 = ConstInt64(0.0)
   }
+  return ok1 || ok2
 }
 func (obj *SparseConstInt64VectorJointIterator) GetConst() (ConstScalar, ConstScalar) {
   return obj.s1, obj.s2
